@@ -4,41 +4,9 @@
 From Coq Require Import List Bool ZArith Arith Lia.
 Import ListNotations.
 Require Import MV.Model.PySem MV.Gen.SrcPlan.
-Require Import MV.Model.Orch MV.Model.PlannerA MV.Model.PyObj.
+Require Import MV.Model.Orch MV.Model.PlannerA MV.Model.PyObj MV.Proofs.SrcTieLemP.
 Require MV.Model.PlannerL.
 Open Scope nat_scope.
-
-(* ---------- Python set operations of Model/PySem.v = the set operations of the planner models ---------- *)
-Lemma py_in_nat_mem : forall x l, py_in Nat.eqb x l = mem x l.
-Proof. reflexivity. Qed.
-
-Lemma py_union_add1 : forall l x, py_union Nat.eqb l [x] = set_add x l.
-Proof.
-  intros l x. unfold py_union, py_diff, set_add, py_in. cbn [filter]. fold (mem x l).
-  destruct (mem x l); cbn [negb]; [apply app_nil_r|reflexivity].
-Qed.
-
-Lemma mem_app_single : forall x l y, mem x (l ++ [y]) = (mem x l || Nat.eqb x y)%bool.
-Proof. intros. unfold mem. rewrite existsb_app. cbn [existsb]. rewrite orb_false_r. reflexivity. Qed.
-
-(* s.update({a, b}) for two different a, b *)
-Lemma py_union_add2 : forall l a b, Nat.eqb b a = false -> py_union Nat.eqb l [a; b] = set_union l [a; b].
-Proof.
-  intros l a b Hab. unfold py_union, py_diff, set_union, py_in. cbn [filter fold_left]. fold (mem a l). fold (mem b l).
-  unfold set_add at 2. destruct (mem a l) eqn:Ea; cbn [negb].
-  - unfold set_add. destruct (mem b l); cbn [negb]; [apply app_nil_r|reflexivity].
-  - unfold set_add. rewrite mem_app_single, Hab, orb_false_r.
-    destruct (mem b l); cbn [negb]; [reflexivity|]. rewrite <- app_assoc. reflexivity.
-Qed.
-
-(* ---------- dicts ---------- *)
-Lemma py_dict_set_fresh : forall (K V : Type) (eqb : K -> K -> bool) (d : list (K * V)) k v,
-  py_dict_mem eqb k d = false -> py_dict_set eqb d k v = d ++ [(k, v)].
-Proof.
-  intros K V eqb d k v. induction d as [|[k' v'] d IH]; intros H; [reflexivity|].
-  unfold py_dict_mem in H. cbn [existsb fst] in H. apply orb_false_iff in H. destruct H as [H1 H2].
-  cbn [py_dict_set app]. rewrite H1. f_equal. apply IH. exact H2.
-Qed.
 
 (* ---------- JoinStep.get_uuids ---------- *)
 Lemma joinstep_get_uuids_src : forall s, JoinStep_get_uuids s = [PlannerL.js_uid (fst s); fst s].
